@@ -3,3 +3,4 @@ pub mod lr1;
 pub mod trees;
 pub mod prec;
 pub mod lexmodel;
+pub mod layoutmodel;
